@@ -294,7 +294,36 @@ struct FormatApi {
     std::vector<std::string> (*seeds)();
     // encoder into a failing sink (C05): returns violation text or ""
     Outcome (*encode_to_sink)(const std::string& json_text, size_t capacity, int kind, uint64_t variant);
+    // push `depth` nested containers (ckind 0 arrays, 1 objects, 2 alternating) into the format's encoder configured with
+    // max_nesting_depth = limit (C10: encoders enforce the limit on what they are asked to write); may be null
+    Outcome (*encoder_nest)(int ckind, size_t depth, int limit);
 };
+
+// Shared driver for encoder_nest: Enc is constructed from (sink&, options).
+template <class Enc, class Sink, class Opt>
+Outcome encoder_nest_impl(int ckind, size_t depth, const Opt& opt, bool root_object) {
+    Outcome o;
+    try {
+        Sink sink;
+        Enc enc(sink, opt);
+        std::error_code ec;
+        jsoncons::ser_context ctx;
+        size_t opened = 0; std::vector<char> kinds;
+        for (size_t i = 0; i < depth && !ec; ++i) {
+            bool obj = ckind == 1 || (ckind == 2 && (i & 1)) || (root_object && i == 0);
+            if (!kinds.empty() && kinds.back() == '{') enc.key("k", ctx, ec);
+            if (ec) break;
+            if (obj) enc.begin_object(1, jsoncons::semantic_tag::none, ctx, ec); else enc.begin_array(1, jsoncons::semantic_tag::none, ctx, ec);
+            if (!ec) { kinds.push_back(obj ? '{' : '['); ++opened; }
+        }
+        if (!ec) { if (!kinds.empty() && kinds.back() == '{') enc.key("k", ctx, ec); if (!ec) enc.uint64_value(1, jsoncons::semantic_tag::none, ctx, ec); }
+        while (!ec && !kinds.empty()) { if (kinds.back() == '{') enc.end_object(ctx, ec); else enc.end_array(ctx, ec); kinds.pop_back(); }
+        if (!ec) enc.flush();
+        o.error = ec_str(ec);
+        o.events = "opened " + std::to_string(opened);
+    } catch (...) { classify_exception(o, "encoder_nest"); }
+    return o;
+}
 
 const FormatApi& json_api(); const FormatApi& csv_api(); const FormatApi& cbor_api();
 const FormatApi& msgpack_api(); const FormatApi& ubjson_api(); const FormatApi& bson_api();
